@@ -50,6 +50,8 @@ def norm_val(v):
             else:
                 out.append((k, x))
         return out
+    if isinstance(v, (dict, list, float)):
+        return ("parsed", repr(v))  # (nan is not equal to itself: parsed JSON is compared by its text)
     return v
 
 
@@ -118,7 +120,7 @@ def collect_asgi(req, order):
                 if name == "body":
                     out["body"] = ("val", await request.body)
                 elif name == "json":
-                    out["json"] = ("val", await request.json)
+                    out["json"] = ("val", norm_val(await request.json))
                 elif name == "form":
                     out["form"] = ("val", norm_val(await request.form))
                 elif name == "stream_after":
@@ -161,7 +163,7 @@ def gen_view_request(rng):
     kind = rng.choice(["json", "badjson", "urlenc", "multipart", "raw", "none", "json-charset", "urlenc-charset", "empty-ct", "json-relatives"] + (["multipart-many"] if rng.random() < 0.15 else []))
     body = b""
     if kind == "json":
-        body, ct = rng.choice([b'{"a": [1, 2]}', b'"\xc3\xa9"', b"[]", b'\xef\xbb\xbf{"bom": 1}', '{"k": "v"}'.encode("utf-16"), '[1]'.encode("utf-32-le")]), "application/json"
+        body, ct = rng.choice([b'{"a": [1, 2]}', b'"\xc3\xa9"', b"[]", b'{"n": NaN}', b"[Infinity, -Infinity]", b'{"n": 1e400, "m": -0, "big": 123456789012345678901234567890}', b'{"a": 1, "a": 2}', b' \t\r\n[1] \n', b'\xef\xbb\xbf{"bom": 1}', '{"k": "v"}'.encode("utf-16"), '[1]'.encode("utf-32-le")]), "application/json"
     elif kind == "badjson":
         body, ct = rng.choice([b'{"a": ', b'"\xff"', b""]), "application/json"
     elif kind == "json-relatives":
@@ -401,7 +403,7 @@ def check_static(ctx, rng, apps, validators):
     if r < 0.2:
         hdrs.append(("Range", rng.choice(["bytes=0-1", "bytes=1-", "bytes=0-0,2-3", "bytes=99-", "bytes=2-1", ""])))
         if v and rng.random() < 0.5:
-            hdrs.insert(rng.choice([0, 1]), ("If-Range", rng.choice([v[0], v[1], '"stale"', "Wed, 21 Oct 2015 07:28:00 GMT"])))  # before or after Range
+            hdrs.insert(rng.choice([0, 1]), ("If-Range", rng.choice([v[0], v[1], '"stale"', "Wed, 21 Oct 2015 07:28:00 GMT", "W/" + (v[0] or '""'), (v[0] or "").strip('"')])))  # before or after Range
     elif r < 0.5 and v:
         hdrs.append(("If-None-Match", rng.choice([v[0], "W/" + v[0], f'"x", {v[0]}', "*", '"other"', ""])))
         if rng.random() < 0.5:
